@@ -134,7 +134,48 @@ def run_one(mod: Any, prop: str, seed: Optional[int], replay: Optional[List[int]
     return out
 
 
+def _in_child(fn: Any, *args: Any, watchdog_s: int = 900) -> Any:
+    """Run fn(*args) in a forked child and return its (pickled) result.  The calling process never executes a
+    simulated run itself, so every block of runs -- and every reproduction or shrink candidate -- starts from the
+    same pristine interpreter state: state that a changed repository leaks between runs (module-level caches,
+    mutable default arguments) cannot make a verdict depend on which runs happened earlier in the same process."""
+    import pickle
+
+    rfd, wfd = os.pipe()
+    pid = os.fork()
+    if pid == 0:
+        code = 0
+        try:
+            os.close(rfd)
+            import faulthandler
+            faulthandler.dump_traceback_later(watchdog_s, exit=True)
+            res = fn(*args)
+            try:
+                data = pickle.dumps(res, protocol=pickle.HIGHEST_PROTOCOL)
+            except Exception:  # noqa: BLE001
+                from sim.core import jsonable
+                data = pickle.dumps(jsonable(res), protocol=pickle.HIGHEST_PROTOCOL)
+            with os.fdopen(wfd, "wb") as f:
+                f.write(data)
+        except BaseException:  # noqa: BLE001
+            traceback.print_exc()
+            code = 3
+        finally:
+            os._exit(code)
+    os.close(wfd)
+    with os.fdopen(rfd, "rb") as f:
+        data = f.read()
+    _, status = os.waitpid(pid, 0)
+    if not data:
+        raise RuntimeError(f"isolated child died (wait status {status})")
+    return pickle.loads(data)
+
+
 def _worker(args: Tuple[str, int, str, int, int, Dict[str, Any]]) -> Dict[str, Any]:
+    return _in_child(_worker_body, args, watchdog_s=int(args[5].get("watchdog_s", 300)) * 4)
+
+
+def _worker_body(args: Tuple[str, int, str, int, int, Dict[str, Any]]) -> Dict[str, Any]:
     prop, batch_seed, tier, lo, hi, opts = args
     import faulthandler
 
@@ -188,6 +229,7 @@ def _worker(args: Tuple[str, int, str, int, int, Dict[str, Any]]) -> Dict[str, A
                 agg["violations"].append({
                     "index": i, "seed": sd, "oracle": r["oracle"], "signature": sig,
                     "detail": r.get("detail"), "choices": r["choices"], "avoid": sorted(o["avoid"]),
+                    "block_lo": lo,
                 })
         else:
             if len(agg["harness"]) < 3:
@@ -244,7 +286,7 @@ def minimise(mod: Any, prop: str, v: Dict[str, Any], opts: Dict[str, Any], budge
     o["index"] = v["index"]
 
     def still(cand: List[int]) -> Optional[List[int]]:
-        r = run_one(mod, prop, None, cand, o)
+        r = _in_child(run_one, mod, prop, None, cand, o)
         if r["status"] == "violation" and sig_class(r["signature"]) == target:
             return r["choices"]
         return None
@@ -254,7 +296,7 @@ def minimise(mod: Any, prop: str, v: Dict[str, Any], opts: Dict[str, Any], budge
     if eff is None:
         return {"reproduced": False}
     small = shrink(eff, still, budget=budget, wall_s=20.0 if opts.get("tier") == "quick" else 90.0)
-    r = run_one(mod, prop, None, small, {**o, "want_trace": True})
+    r = _in_child(run_one, mod, prop, None, small, {**o, "want_trace": True})
     return {
         "reproduced": r["status"] == "violation" and r["signature"] == v["signature"],
         "choices": r["choices"], "signature": r.get("signature"), "oracle": r.get("oracle"),
@@ -262,6 +304,42 @@ def minimise(mod: Any, prop: str, v: Dict[str, Any], opts: Dict[str, Any], budge
         "decoded": (r.get("info") or {}),
         "orig_len": len(v["choices"]), "min_len": len(r["choices"]),
     }
+
+
+def _run_sequence(prop: str, batch_seed: int, tier: str, lo: int, index: int, opts: Dict[str, Any]) -> Dict[str, Any]:
+    """Runs lo..index of a batch one after the other in this process and returns the result of the last one: the
+    replay form for a violation that needs what earlier runs of its block left behind in the interpreter."""
+    from sim.core import run_seed
+
+    mod = importlib.import_module(PROPS[prop])
+    r: Dict[str, Any] = {"status": "ok"}
+    for i in range(lo, index + 1):
+        o = dict(opts)
+        o["index"] = i
+        o["avoid"] = set(opts.get("masks", ())) if (i % 2 == 0) else set()
+        if i == index:
+            o["want_trace"] = True
+        r = run_one(mod, prop, run_seed(batch_seed, prop, tier, i), None, o)
+    return r
+
+
+def write_sequence_replay(prop: str, tier: str, batch_seed: int, v: Dict[str, Any], r: Dict[str, Any], masks: List[str]) -> str:
+    d = os.path.join(VERIF, "replays")
+    os.makedirs(d, exist_ok=True)
+    path = os.path.join(d, f"{prop}-{v['seed']:016x}-seq.json")
+    from sim.core import jsonable
+
+    rep = {
+        "property": prop, "tier": tier, "kind": "sequence", "batch_seed": batch_seed, "block_lo": v["block_lo"],
+        "index": v["index"], "seed": v["seed"], "masks": masks,
+        "note": "the violation does not occur when run " + str(v["index"]) + " is executed alone in a fresh interpreter: it needs "
+                "state that the earlier runs of its block left behind in the process (state surviving what should have "
+                "been a clean start); the replay executes runs block_lo..index of the batch in one fresh process",
+        "violation": {"oracle": r.get("oracle"), "signature": r.get("signature"), "detail": r.get("detail")},
+    }
+    with open(path, "w") as f:
+        json.dump(jsonable(rep), f, indent=1)
+    return path
 
 
 def write_replay(prop: str, tier: str, v: Dict[str, Any], m: Dict[str, Any]) -> str:
@@ -287,9 +365,13 @@ def replay_file(prop: str, path: str, quiet: bool = False) -> int:
     mod = importlib.import_module(PROPS[prop])
     with open(path) as f:
         rep = json.load(f)
-    opts = {"avoid": set(rep.get("avoid", [])), "index": rep.get("index", 0), "tier": rep.get("tier", "quick"),
-            "want_trace": True}
-    r = run_one(mod, prop, None, rep["choices"], opts)
+    if rep.get("kind") == "sequence":
+        r = _run_sequence(prop, rep["batch_seed"], rep.get("tier", "quick"), rep["block_lo"], rep["index"],
+                          {"tier": rep.get("tier", "quick"), "masks": rep.get("masks", [])})
+    else:
+        opts = {"avoid": set(rep.get("avoid", [])), "index": rep.get("index", 0), "tier": rep.get("tier", "quick"),
+                "want_trace": True}
+        r = run_one(mod, prop, None, rep["choices"], opts)
     want = rep["violation"]["signature"]
     if r["status"] == "violation" and r["signature"] == want:
         if not quiet:
@@ -442,10 +524,17 @@ def main(argv: Optional[List[str]] = None) -> int:
             continue
         m = minimise(mod, prop, v, opts, shrink_budget)
         if not m.get("reproduced"):
-            print(f"HARNESS-ERROR property={prop}: violation '{sig}' (index {v['index']}, seed {v['seed']}) "
-                  f"did not reproduce from its own choice record")
-            return 2
-        path = write_replay(prop, tier, v, m)
+            # not reproducible alone from a pristine interpreter: does it need what the earlier runs of its block left behind?
+            sr = _in_child(_run_sequence, prop, batch_seed, tier, v["block_lo"], v["index"], opts)
+            if not (sr["status"] == "violation" and sr["signature"] == sig):
+                print(f"HARNESS-ERROR property={prop}: violation '{sig}' (index {v['index']}, seed {v['seed']}) "
+                      f"did not reproduce from its own choice record nor from its block's run sequence")
+                return 2
+            path = write_sequence_replay(prop, tier, batch_seed, v, sr, masks)
+            m = {"orig_len": len(v["choices"]), "min_len": len(v["choices"]), "sequence": True,
+                 "oracle": sr.get("oracle"), "signature": sr.get("signature")}
+        else:
+            path = write_replay(prop, tier, v, m)
         # independent confirmation in a fresh interpreter
         cp = subprocess.run([sys.executable, os.path.join(VERIF, "check"), prop, "--replay", path, "--quiet"],
                             capture_output=True, text=True, timeout=600)
